@@ -3,10 +3,12 @@
    [sem_engine]: on the fragment [fragr], resolving called lambdas with an arbitrary stack of argument maps
    preserves values, provided the environments are related by the stack ([Rr]).  Hygiene is part of the
    fragment's index: a binder that *stays* in the tree (the lambda argument of a method call, a comprehension
-   target) is allowed only while every argument in flight is a constant ([cl = true]); inside the body of an
-   inlined lambda ([cl = false]) no staying binder occurs.  That is the explicit hygiene hypothesis of
-   inline_sem; the case it excludes (argument names captured by a binder inside the helper body) is the open
-   finding reported for C05, and the shadowing half (F07) is covered by the correspondence and the oracle. *)
+   target) is allowed only while every argument in flight is a constant ([cl = true]): at top level, under any
+   staying binders, and inside the bodies of lambdas called with constant arguments ([FCallLamC]).  Inside the
+   body of a lambda inlined with non-constant arguments ([cl = false]) no staying binder occurs - there the
+   implementation's bail-out test (FC4, [overlaps .. (inner_binders b)]) is shown never to fire.  Bodies with
+   staying binders and non-constant arguments (where FC4 decides) are covered by correspondence and oracle; a
+   proof needs the coincidence lemma of the semantics. *)
 From FA.Base Require Import PyAst Induct Value Eval Traverse.
 From FA.Model Require Import Capture.
 From FA.Proofs Require Import TraverseFacts Refine CaptureProofs.
@@ -26,6 +28,8 @@ Inductive fragr : bool -> expr -> Prop :=
  | FComp x it elt : fragr true it -> fragr true elt -> fragr true (ListComp elt [CompFor (Name x) it [] false])
  | FCallLam cl ps b args : length ps = length args -> fragrs cl args -> fragr false b ->
                            fragr cl (Call (Lambda ps b) args [] [])
+ | FCallLamC cl ps b cs : length ps = length cs -> fragr cl b ->
+                          fragr cl (Call (Lambda ps b) (map Const cs) [] [])
 with fragrs : bool -> list expr -> Prop :=
  | FNil cl : fragrs cl []
  | FCons cl a l : fragr cl a -> fragrs cl l -> fragrs cl (a :: l).
@@ -36,6 +40,32 @@ Combined Scheme fragr_mutind from fragr_mut, fragrs_mut.
 
 Definition closed_st (st : list amap) : Prop :=
   forall y a, lookup_st y st = Some (Some a) -> exists c, a = Const c.
+
+Lemma flat_binders_consts cs : flat_map inner_binders (map Const cs) = [].
+Proof. induction cs; simpl; auto. Qed.
+
+Lemma overlaps_nil_r used : overlaps used [] = false.
+Proof. unfold overlaps. induction used; simpl; auto. Qed.
+
+(* inside [fragr false] nothing binds: the bail-out of FC4 cannot fire for such a body *)
+Lemma fragr_false_no_binders :
+  (forall cl e, fragr cl e -> cl = false -> inner_binders e = []) /\
+  (forall cl l, fragrs cl l -> cl = false -> flat_map inner_binders l = []).
+Proof.
+  apply fragr_mutind; intros; subst; try discriminate; cbn [inner_binders flat_map];
+    repeat match goal with
+           | H : false = false -> _ |- _ => specialize (H eq_refl)
+           end;
+    try reflexivity; try assumption.
+  - (* BinOp *) rewrite H, H0. reflexivity.
+  - (* IfExp *) rewrite H, H0, H1. reflexivity.
+  - (* Subscript *) rewrite H, H0. reflexivity.
+  - (* method call without arguments *) cbn [inner_binders]. rewrite H. reflexivity.
+  - (* called lambda *) rewrite H0. rewrite e, Nat.eqb_refl. exact H.
+  - (* called lambda, constant arguments *)
+    rewrite H. rewrite map_length, e, Nat.eqb_refl. apply flat_binders_consts.
+  - (* cons *) rewrite H, H0. reflexivity.
+Qed.
 
 Section Sem.
   Variable B : backend.
@@ -150,8 +180,9 @@ Section Sem.
       apply option_map_refines. apply omap_refines. intros v.
       apply IHelt; [intros _; apply closed_shadow; auto | apply Rr_shadow1; auto].
     - (* an inlined call *)
-      intros cl ps b args Hlen _ IHargs _ IHb st E1 E2 Hc HR. cbn [res eval].
+      intros cl ps b args Hlen _ IHargs Hfb IHb st E1 E2 Hc HR. cbn [res eval].
       rewrite Hlen, Nat.eqb_refl.
+      rewrite (proj1 fragr_false_no_binders false b Hfb eq_refl), overlaps_nil_r.
       intros w Hw. apply obind_some in Hw. destruct Hw as [vs [Hvs Hw]].
       apply obind_some in Hw. destruct Hw as [E' [HE' Hw]].
       apply bind_args_nokw in HE'. subst E'.
@@ -163,6 +194,34 @@ Section Sem.
       + destruct Hfr as [w0 [Hl Hev]]. intros w' Hw'. rewrite Hl in Hw'. inversion Hw'; subst. exact Hev.
       + contradiction.
       + rewrite Hfr. exact (HR x).
+    - (* a call with constant arguments: the frame is closed, binders may stay in the body *)
+      intros cl ps b cs Hlen _ IHb st E1 E2 Hc HR. cbn [res eval].
+      rewrite map_length, Hlen, Nat.eqb_refl.
+      assert (Hres : map (res st) (map Const cs) = map Const cs).
+      { clear. induction cs; simpl; [reflexivity|]. rewrite IHcs. reflexivity. }
+      assert (Hnm : flat_map names_in (map Const cs) = []).
+      { clear. induction cs; simpl; auto. }
+      rewrite Hres, Hnm. cbn [overlaps existsb].
+      intros w Hw. apply obind_some in Hw. destruct Hw as [vs [Hvs Hw]].
+      apply obind_some in Hw. destruct Hw as [E' [HE' Hw]].
+      apply bind_args_nokw in HE'. subst E'.
+      assert (HF : Forall2 (fun a a' => refines (ev E1 a) (ev E2 a')) (map Const cs) (map (res st) (map Const cs))).
+      { rewrite Hres. clear. induction cs; simpl; constructor; [apply refines_refl | assumption]. }
+      assert (Hlen' : length ps = length (map Const cs)) by (rewrite map_length; exact Hlen).
+      pose proof (frame_rel st E1 E2 ps (map Const cs) vs Hlen' Hvs HF) as Hfr. rewrite Hres in Hfr.
+      apply (IHb (combine ps (map (@Some expr) (map Const cs)) :: st) (combine ps vs ++ E1) E2); [ | | exact Hw].
+      + intros Hcl y a. cbn [lookup_st].
+        destruct (assoc y (combine ps (map (@Some expr) (map Const cs)))) as [[a'|]|] eqn:Ha.
+        * intros H; inversion H; subst.
+          clear - Ha. revert ps Ha. induction cs as [|c cs IH]; intros [|p ps] Ha; simpl in Ha; try discriminate.
+          destruct (String.eqb y p); [inversion Ha; eauto | eapply IH; eauto].
+        * discriminate.
+        * apply Hc; exact Hcl.
+      + intros x. cbn [lookup_st]. rewrite lookup_app. specialize (Hfr x).
+        destruct (assoc x (combine ps (map (@Some expr) (map Const cs)))) as [[a'|]|].
+        * destruct Hfr as [w0 [Hl Hev]]. intros w' Hw'. rewrite Hl in Hw'. inversion Hw'; subst. exact Hev.
+        * contradiction.
+        * rewrite Hfr. exact (HR x).
     - intros; constructor.
     - intros cl a l _ IHa _ IHl st E1 E2 Hc HR. cbn [map]. constructor; [apply IHa | apply IHl]; assumption.
   Qed.
